@@ -312,3 +312,11 @@ M("C10", "C10.partial", _CO, "        if node.orelse and not node.except_handler
 M("C10", "C10.children", _CO, "            value = ast.Constant(None) if node.value is None else self.visit(node.value)", "            value = ast.Constant(None) if node.value is None else node.value", "c10-return-value-unvisited")
 M("C04", "C04.polarity", _R, "                    obj.occupiedSpace.mesh.vertices - obj_candidate_point, axis=1\n                )\n            )\n\n            # Compute the minimum distance from the region to this point.", "                    obj.occupiedSpace.mesh.vertices - obj.position, axis=1\n                )\n            )\n\n            # Compute the minimum distance from the region to this point.", "c04-circumradius-other-anchor")
 M("C18", "C18.options", _SE, "            hasher.update(str(value).encode())", "            hasher.update(struct.pack(\"<d\", float(value)) if not isinstance(value, str) else value.encode())", "c18-options-hash-lossy")
+M("C04", "C04.computed", _R, "            if self.isConvex and other.isConvex:\n                # For convex shapes, FCL detects containment as well as", "            if self.isConvex or other.isConvex:\n                # For convex shapes, FCL detects containment as well as", "c04-collision-final-one-convex")
+M("C14", "C14.recorders", "src/scenic/core/sensors.py", "        if not canceled:\n            self.recordTimeSeries(self._series)\n        self._series.clear()\n        super().endRecording(canceled)", "        super().endRecording(canceled)\n        if canceled:\n            return\n        self.recordTimeSeries(self._series)\n        self._series.clear()", "c14-recorder-keeps-series")
+M("C14", "C14.globals", _TR, "    finally:\n        veneer.deactivate()\n        if not _cacheImports:\n            purgeModulesUnsafeToCache(oldModules)", "    finally:\n        veneer.deactivate()\n    if not _cacheImports:\n        purgeModulesUnsafeToCache(oldModules)", "c14-purge-outside-finally")
+M("C20", "C20.reconnect", "src/scenic/formats/opendrive/xodr_parser.py", "                newRoad.sections[-1]._successor = intersection", "                newRoad.sections[0]._successor = intersection", "c20-successor-on-first-section")
+M("C20", "C20.options", _SE, "        value = mapping[key]\n        if isinstance(value, (int, float, str)):", "        value = mapping[key]\n        if value is None:\n            continue\n        if isinstance(value, (int, float, str)):", "c20-options-hash-skips-none")
+M("C19", "C19.enabled", _IV, "            if len(enabled) == 1:\n                choice = list(enabled)[0]\n            else:\n                choice = Options(enabled)\n            return choice", "            return Options(enabled)", "c19-single-item-through-options")
+M("C13", "C13.priority", _IV, "        block = body\n        for interrupt in interrupts:\n            if interrupt.isEnabled or interrupt.isRunning:\n                block = interrupt\n                break", "        enabled = [i for i in interrupts if i.isEnabled]\n        running = [i for i in interrupts if i.isRunning]\n        block = (enabled or running or [body])[0]", "c13-enabled-before-running")
+RF("C13", _IV, "        block = body\n        for interrupt in interrupts:\n            if interrupt.isEnabled or interrupt.isRunning:\n                block = interrupt\n                break", "        live = [i for i in interrupts if i.isRunning or i.isEnabled]\n        block = live[0] if live else body", "c13-rf-selection-as-comprehension")
